@@ -74,6 +74,7 @@ Expected(pre, ev, args, post, D) ==
     [] ev = "MonitorCleanup" -> M!DoMonitor(pre, M!Cont(args[1], args[2]))
     [] ev = "CleanupCompletes" -> M!DoCleanupDone(pre, [k |-> args[1], i |-> args[2], g |-> args[3]])
     [] ev = "ManagerRestart" -> M!DoRestart(pre)
+    [] ev = "NodeStart" -> M!DoNodeStart(pre)
     [] ev = "OnCreated" ->
          M!DoOnCreated(pre, args[1],
                        IF Kind(pre, ev, args) = "sync"
@@ -96,6 +97,7 @@ Enabled(pre, ev, args) ==
     [] ev = "MonitorCleanup" -> M!Cont(args[1], args[2]) \in pre.tomb
     [] ev = "CleanupCompletes" -> [k |-> args[1], i |-> args[2], g |-> args[3]] \in DOMAIN pre.cleanup
     [] ev = "ManagerRestart" -> TRUE
+    [] ev = "NodeStart" -> TRUE
     [] ev = "OnCreated" -> HeadIs(pre, "C", args[1])
     [] ev = "OnModified" -> HeadIs(pre, "M", args[1])
     [] ev = "OnDeleted" -> HeadIs(pre, "D", args[1])
